@@ -12,3 +12,4 @@ for s in $seeds; do
     [ $rc -ne 0 ] && echo "$out" | grep -E "VIOLATION|INCONCLUSIVE|first:|kinds" | head -6
   done
 done
+exit 0   # the summary lines carry each run's rc; the sweep itself always succeeds
